@@ -140,6 +140,17 @@ def netOp (n : NSt) (w : List String) : NSt × String :=
         | some (m :: rest) => ({ n with outbox := insertN n.outbox (num c) rest }, s!"M[{showMsg m}]")
         | _ => (n, if rc.closedByLib then "eof" else "none")
       else (n, "bad-op")
+  -- `rawwait c eofcap <bytes>`: end-of-stream must arrive before the peer has read more than <bytes> (what can have
+  -- been in flight when the socket went away): a connection the library still FEEDS is not closed
+  | ["rawwait", c, "eofcap", _] =>
+    (match lookupN n.s.raws (num c) with
+     | none => (n, "bad-op no-raw")
+     | some rc => (n, if rc.closedByLib then "eof" else "open"))
+  -- a SUB socket subscribes to <count> topics of <size> bytes: its subscription set is what it announces to every
+  -- new peer BEFORE registering it — with a set larger than the transport's buffers and a peer that does not read,
+  -- the connection stays in the state "handshake done, registration pending"
+  | ["subbig", sid, _, _] =>
+    if (lookupN n.s.socks (num sid)).isNone then (n, "bad-op no-sock") else (n, "ok")
   | ["recvslow", sid, _] =>
     -- one poll of recv with nothing queued (the generator issues it only then), future dropped: no effect
     (match lookupN n.s.socks (num sid) with
